@@ -285,6 +285,10 @@ func init() {
 					}
 				}
 			}
+			// recursive calls that look like tail calls
+			for _, src := range gen.RecursionPrograms() {
+				kC04.Do(c, c04Case{Src: src, Inputs: fixed[:2]})
+			}
 			// literals whose members arrange constants and the identity with commas, pipes and parentheses in every way
 			for _, src := range gen.LiteralShapePrograms(c.N(6, 1)) {
 				kC04.Do(c, c04Case{Src: src, Inputs: fixed[:4]})
